@@ -81,6 +81,15 @@ pub fn c_pipeline(program: &[u8], witness: &[u8], env: Option<&CElementsTxEnv>, 
         let e = simplicity_mallocTypeInference(&mut type_dag, simplicity_elements_mallocBoundVars, dag, len, &census);
         if e != SimplicityErr::NoError { fail!(code(e)); }
         let _d2 = FreeOnDrop(type_dag as *mut u8);
+        {
+            // the root's source and target type roots (for jet-table agreement)
+            let root = &*dag.add(len - 1);
+            let (si, ti) = (root.aux_types.types[0], root.aux_types.types[1]);
+            out["root_src_tmr"] = json!(root_bytes(&(*type_dag.add(si)).type_merkle_root));
+            out["root_tgt_tmr"] = json!(root_bytes(&(*type_dag.add(ti)).type_merkle_root));
+            out["root_src_bits"] = json!((*type_dag.add(si)).bit_size);
+            out["root_tgt_bits"] = json!((*type_dag.add(ti)).bit_size);
+        }
         out["stage"] = json!("witness");
         let e = simplicity_fillWitnessData(dag, type_dag, len as c_size_t, &mut wit_stream);
         if e != SimplicityErr::NoError { fail!(code(e)); }
